@@ -46,3 +46,8 @@ def install(clock):
         if hasattr(m, 'time'):
             m.time = clock
     return clock
+
+
+def uninstall():
+    """back to the real clock in all patched modules"""
+    return install(_t)
